@@ -1118,6 +1118,215 @@ def r1_paa_length(ctx, repo):
                   % (got, arr.name, arr.shape[1]), loc, witness={"loop": repr(got), "series_length": repr(arr.shape[1])})
 
 
+def r1_paa_frames(ctx, repo):
+    """PAA frame loop as a weighted running sum, decided by polynomial symbolic execution of the loop body: running size
+    and sum start at 0 for every series; every point contributes total weight 1 (weight a to the frame being closed,
+    1 - a carried into the next); the running size is the weight accumulated in the open frame; a frame is emitted
+    exactly when its weight reaches frame_length = n_timepoints / num_intervals and its value is sum / frame_length."""
+    from ._c14_poly import PolyExec, Path, Poly, Ratio, Unknown
+    cls = repo.cls(PAA + ":PAA")
+    fn = repo.func(PAA, "PAA._perform_paa_along_dim")
+    loc = ctx.loc(cls.module, fn)
+    c = "PAA._perform_paa_along_dim:frames"
+    outers = [st for st in fn.body if isinstance(st, ast.For)]
+    inners = [st for o in outers for st in o.body if isinstance(st, ast.For)
+              and any(isinstance(x, ast.Call) and isinstance(x.func, ast.Attribute) and x.func.attr == "append" for x in ast.walk(st))]
+    if len(outers) != 1 or len(inners) != 1 or not isinstance(inners[0].target, ast.Name):
+        ctx.undecided("R1", c, "expected one loop over the instances containing one loop over the time points that emits frames", loc)
+        return
+    outer, inner = outers[0], inners[0]
+    ex = PolyExec()
+
+    def lenient(stmts, path):
+        for st in stmts:
+            try:
+                res = ex.stmt(st, path)
+                if len(res) != 1:
+                    raise Unknown("branch before the frame loop")
+                path = res[0]
+            except Unknown:
+                for x in ast.walk(st):
+                    if isinstance(x, ast.Name) and isinstance(x.ctx, ast.Store):
+                        path.env[x.id] = Poly.sym("<%s>" % x.id)
+        return path
+
+    try:
+        pre = lenient(fn.body[:fn.body.index(outer)], Path({}))
+        pre = lenient(outer.body[:outer.body.index(inner)], pre)
+        carried = sorted(carried_names(inner.body, target_names(inner.target)))
+        init = {v: pre.env.get(v) for v in carried}
+        start = pre.copy()
+        tvar = inner.target.id
+        start.env[tvar] = Poly.sym(tvar)
+        for v in carried:
+            start.env[v] = Poly.sym(v + "@pre")
+        bound_v = None
+        if isinstance(inner.iter, ast.Call) and dotted(inner.iter.func) == "range" and len(inner.iter.args) == 1:
+            bound_v = ex.atom(ex.ev(inner.iter.args[0], pre.env))
+        paths = ex.run(inner.body, [start])
+    except Unknown as e:
+        ctx.undecided("R1", c, "the frame loop is not interpretable as polynomial updates (%s)" % e, loc)
+        return
+    xs = sorted({s_ for p_ in paths for v in p_.env.values() if isinstance(v, Poly) for s_ in v.symbols()
+                 if s_.endswith("[%s]" % tvar)})
+    emitting = [p_ for p_ in paths if p_.emits]
+    if len(xs) != 1 or not emitting or not all(isinstance(p_.emits[-1][1], Ratio) for p_ in emitting):
+        ctx.undecided("R1", c, "no single series[n] read / no emitted sum / length found in the frame loop", loc)
+        return
+    x = xs[0]
+    V0 = emitting[0].emits[-1][1]
+    F = V0.den
+    sums = [v for v in carried if (v + "@pre") in V0.num.symbols()]
+    eqs = [d for p_ in emitting for op, d, _ in p_.cons if op == "=="][:1]
+    sizes = [v for v in carried if eqs and (v + "@pre") in eqs[-1].symbols() and v not in sums]
+    if len(sums) != 1 or len(sizes) != 1:
+        ctx.undecided("R1", c, "running sum / running size of the open frame not identified (%r / %r)" % (sums, sizes), loc)
+        return
+    fsyms = [y for y in eqs[-1].symbols() if y in ex.defs] if eqs else []
+    if len(fsyms) == 1:
+        F = Poly.sym(fsyms[0])  # the length the running size is compared with
+    sv_, zv = sums[0], sizes[0]
+    S0, s0 = Poly.sym(sv_ + "@pre"), Poly.sym(zv + "@pre")
+    X = Poly.sym(x)
+    ZP = Poly()
+    # (a) initial state
+    ctx.check(None if init[sv_] is None or init[zv] is None else (init[sv_] == ZP and init[zv] == ZP), "R1", c + ":init",
+              "for every series the running sum and the running frame size start at 0",
+              "before the first point the running sum is %r and the running frame size %r (expected 0 and 0): the first frame of "
+              "every series is biased" % (init[sv_], init[zv]), loc)
+    # (b) frame length
+    fdef = ex.defs.get(list(F.symbols())[0]) if len(F.symbols()) == 1 and F == Poly.sym(list(F.symbols())[0]) else None
+    ok = None
+    if fdef is not None and bound_v is not None:
+        ok = fdef[0] == bound_v and fdef[1] == Poly.sym("<self.num_intervals>")
+    ctx.check(ok, "R1", c + ":frame-length", "frame_length = n_timepoints / num_intervals (the loop runs over all n_timepoints points)",
+              "frame length is %r over a loop of %r points, expected n_timepoints / self.num_intervals" % (fdef, bound_v), loc)
+
+    def facts_of(p_):
+        f = Facts()
+        for op, d, _ in p_.cons:
+            l_ = d.to_lin()
+            if l_ is None:
+                return None
+            if op == "!=":
+                continue
+            # rational comparisons: the facts engine is integral; scale strict comparisons conservatively (no +1)
+            if op in ("<", "<="):
+                f.add_le0(l_, "path condition")
+            elif op in (">", ">="):
+                f.add_le0(-l_, "path condition")
+            else:
+                f.add_le0(l_, "path condition")
+                f.add_le0(-l_, "path condition")
+        return f
+
+    def strictly(p_, lin_pos):
+        """Do the path conditions imply ``lin_pos > 0`` (some strict condition has exactly this form)?"""
+        for op, d, _ in p_.cons:
+            l_ = d.to_lin()
+            if l_ is None:
+                continue
+            if op == ">" and (l_ - lin_pos).is_const() and (l_ - lin_pos).const <= 0:
+                return True
+            if op == "<" and ((-l_) - lin_pos).is_const() and ((-l_) - lin_pos).const <= 0:
+                return True
+        return False
+
+    verdicts = {"point-weight": True, "size": True, "mass": True, "mean": True, "no-overfill": True, "weight-range": True}
+    notes = {}
+
+    def fail(key, why, hard=True):
+        if verdicts[key] is True or (hard and verdicts[key] is None):
+            verdicts[key] = False if hard else None
+            notes[key] = why
+
+    for p_ in paths:
+        S1, s1 = p_.env.get(sv_), p_.env.get(zv)
+        if not isinstance(S1, Poly) or not isinstance(s1, Poly):
+            fail("point-weight", "state not numeric on a path", hard=False)
+            continue
+        arithmetic = [ex.ops[y] for y in (S1.symbols() | s1.symbols()) if y in ex.ops]
+        if p_.emits:
+            V = p_.emits[-1][1]
+            eq = [d for op, d, _ in p_.cons if op == "=="]
+            if eq and (eq[-1].degree_in(zv + "@pre") != 1 or not eq[-1].coeff(zv + "@pre").is_const()):
+                fail("mass", "the emission condition is not an equality that fixes the running size", hard=False)
+                continue
+            if eq:
+                d = eq[-1]
+                c0 = d.coeff(zv + "@pre").const()
+                sol = d.without(zv + "@pre") * Poly.c(Fraction(-1) / c0)  # the running size that makes the frame complete
+            else:
+                sol = s0  # the emission condition holds identically on this path: the identities must hold as they are
+
+            def mod(q, sol=sol):
+                return q.subst(zv + "@pre", sol)
+            a = V.num.coeff(x)
+            if a is None or (V.num - a * X) != S0:
+                fail("point-weight", "the emitted sum is %r, not running sum + weight * series[n]%s"
+                     % (V.num, (" (uses %s where a product is needed)" % ", ".join(arithmetic + [ex.ops[y] for y in V.num.symbols() if y in ex.ops])) if
+                        [y for y in V.num.symbols() if y in ex.ops] or arithmetic else ""))
+                continue
+            if V.den != F:
+                fail("mean", "a frame is emitted as sum / %r, expected sum / frame_length" % (V.den,))
+            b = S1.coeff(x)
+            if b is None or (S1 - b * X) != ZP:
+                fail("point-weight", "after a frame is closed the running sum restarts as %r, expected (carried weight) * series[n]" % (S1,))
+                continue
+            if mod(a + b - Poly.c(1)) != ZP:
+                fail("point-weight", "a point that closes a frame contributes weight %r to it and %r to the next one: together %r, "
+                     "expected 1" % (mod(a), mod(b), mod(a + b)))
+            if mod(s1 - b) != ZP:
+                fail("size", "after a frame is closed the running size is %r but the weight carried into the new frame is %r"
+                     % (mod(s1), mod(b)))
+            al, f = (a - Poly.c(1)).to_lin(), facts_of(p_)
+            if al is not None and f is not None and not al.is_const():
+                sl = f.slack(al)
+                if sl is None:
+                    fail("weight-range", "the weight %r given to the closing frame is not bounded by the path condition" % (a,), hard=False)
+                elif sl > 0:
+                    fail("weight-range", "a point can enter the closing frame with weight up to %s (weight %r under %s): more than the "
+                         "point itself, the surplus is carried into the next frame with a negative sign"
+                         % (sl + 1, a, " and ".join("%r %s 0" % (d_, op) for op, d_, _ in p_.cons)))
+            elif al is not None and al.is_const() and al.const > 0:
+                fail("weight-range", "a point enters the closing frame with weight %r > 1" % (a,))
+            if mod(s0 + a - F) != ZP:
+                fail("mass", "a frame is emitted when its accumulated weight is %r, expected exactly frame_length" % (mod(s0 + a),))
+        else:
+            w = S1.coeff(x)
+            if w is None or (S1 - w * X) != S0:
+                fail("point-weight", "the running sum becomes %r, not running sum + weight * series[n]%s"
+                     % (S1, (" (uses %s where a product is needed)" % ", ".join(arithmetic)) if arithmetic else ""))
+                continue
+            if (s1 - s0) != w:
+                fail("size", "a point adds weight %r to the running sum but %r to the running frame size" % (w, s1 - s0))
+            if w != Poly.c(1):
+                # a fractional contribution without closing the frame loses the rest of the point
+                fail("point-weight", "a point contributes weight %r without closing a frame: the remaining %r of the point is lost"
+                     % (w, Poly.c(1) - w))
+                continue
+            room = (F - s1).to_lin()
+            f = facts_of(p_)
+            if room is None or f is None:
+                fail("no-overfill", "path condition not affine", hard=False)
+            elif f.entails(-room) is not None or strictly(p_, room):
+                pass  # frame_length - new size >= 0 follows
+            elif f.entails(room) is not None and not (room.is_const() and room.const == 0) or strictly(p_, -room):
+                fail("no-overfill", "a whole point is added although the open frame has less than one unit of room left (path "
+                     "condition %s): the frame overfills past frame_length and is never closed"
+                     % " and ".join("%r %s 0" % (d, op) for op, d, _ in p_.cons))
+            else:
+                fail("no-overfill", "cannot relate the new frame size %r to frame_length on a path" % (s1,), hard=False)
+    texts = {"point-weight": "every point contributes total weight 1 (weight to the closing frame + weight carried over)",
+             "size": "the running size is the weight accumulated in the open frame",
+             "mass": "a frame is emitted exactly when its weight reaches frame_length",
+             "mean": "an emitted frame is its weighted sum divided by frame_length",
+             "no-overfill": "a whole point is only added while the open frame has more than one unit of room",
+             "weight-range": "the weight with which a point enters the frame it closes is at most 1"}
+    for key in ("point-weight", "size", "mass", "mean", "no-overfill", "weight-range"):
+        ctx.check(verdicts[key], "R1", c + ":" + key, texts[key], notes.get(key, ""), loc)
+
+
 def r1_feature_columns(ctx, repo):
     """RandomIntervalFeatureExtractor.transform: one output column per (feature, interval) pair, filled in loop order."""
     fe = repo.cls(EXTRACT + ":RandomIntervalFeatureExtractor")
@@ -2347,6 +2556,7 @@ def run(ctx):
     r1_intervals(ctx, repo)
     r1_feature_columns(ctx, repo)
     r1_paa_length(ctx, repo)
+    r1_paa_frames(ctx, repo)
     r2_imputer(ctx, repo)
     r2_acf(ctx, repo)
     r2_simple(ctx, repo)
@@ -2354,6 +2564,6 @@ def run(ctx):
     r2_options(ctx, repo)
     r3_all(ctx, repo)
     r3_history(ctx, repo)
-    ctx.floor("R1", 91)
+    ctx.floor("R1", 99)
     ctx.floor("R2", 134)
     ctx.floor("R3", 87)
